@@ -584,6 +584,20 @@ fn seg_s(hot: usize) -> BoxedStrategy<Vec<Op>> {
             o.push(Op::Cleanup);
             o
         }),
+        // several writes of one key inside ONE chunk (delete / plain put / TTL put in any order, the last one decides
+        // whether the key carries a TTL), then the deadline passes: the lease table must follow the order of the entries
+        2 => (hot_key_s(hot), val_s(), val_s(), 1u64..=3, 0u32..1500, 0u8..4).prop_map(move |(k, v, w, ttl, extra, shape)| {
+            let j = |c: Cmd| Op::Kv { cmd: c, join: true };
+            let mut o = match shape {
+                0 => vec![kv(Cmd::Del { k: k.clone() }), j(Cmd::PutTtl { k: k.clone(), v, ttl })],
+                1 => vec![kv(Cmd::Put { k: k.clone(), v: w }), j(Cmd::PutTtl { k: k.clone(), v, ttl })],
+                2 => vec![kv(Cmd::PutTtl { k: k.clone(), v: w, ttl }), j(Cmd::Del { k: k.clone() }), j(Cmd::PutTtl { k: k.clone(), v, ttl })],
+                _ => vec![kv(Cmd::PutTtl { k: k.clone(), v, ttl }), j(Cmd::Put { k: k.clone(), v: w })],
+            };
+            o.push(past(ttl, extra));
+            o.push(Op::Cleanup);
+            o
+        }),
         // a live TTL key must stay readable across a crossing
         1 => (hot_key_s(hot), val_s(), 4u64..=5, crossing_s(), 0u32..2500).prop_map(move |(k, v, ttl, x, ms)| vec![
             kv(Cmd::PutTtl { k, v, ttl }),
